@@ -17,15 +17,18 @@
 package main
 
 import (
+	"bufio"
 	"bytes"
 	"crypto/sha3"
 	"fmt"
 	"io"
 	"math/big"
 	"os"
+	"os/exec"
 	"sort"
 	"strconv"
 	"strings"
+	"time"
 
 	"golang.org/x/crypto/blake2b"
 
@@ -95,6 +98,8 @@ type kase struct {
 	res   *dsess.Result
 	table []string
 	impl  map[string]string
+
+	tapeLayoutDiffers bool
 }
 
 func idsText(ids []sharing.ID, sep string) string {
@@ -451,8 +456,7 @@ func (k *kase) line(rng *vh.Rng) string {
 	for idx, id := range r.Quorum {
 		// every party is told the quorum in its own (rotated) order: the constructor sorts
 		q := append(append([]sharing.ID(nil), r.Quorum[idx:]...), r.Quorum[:idx]...)
-		tape := r.Trace.Tapes[id]
-		fmt.Fprintf(&sb, " P %d %s %s %d", uint64(id), idsText(q, ","), vh.Hex(tape.Bytes), r.Undec[id])
+		fmt.Fprintf(&sb, " P %d %s %s %d", uint64(id), idsText(q, ","), vh.Hex(k.modelTape(id)), r.Undec[id])
 		sb.WriteString(" " + inboxText(r.InR1B[id], func(m *rsess.Round1Broadcast) string {
 			ck := "-"
 			if m.Ck != nil {
@@ -471,6 +475,41 @@ func (k *kase) line(rng *vh.Rng) string {
 		}))
 	}
 	return sb.String()
+}
+
+// modelTape is the randomness handed to the model for party id.  The model reads its tape
+// in the order the code reads its prng today (key, common contribution, witness; then per
+// peer in ascending order contribution, witness).  C10 does not depend on that order, so
+// the tape is rebuilt from the values the party actually used (they all appear in its own
+// messages) in the model's order; a party that stopped before sending everything keeps its
+// recorded tape.  Whether the recorded tape has exactly this layout is noted, not compared.
+func (k *kase) modelTape(id sharing.ID) []byte {
+	r := k.res
+	tape := r.Trace.Tapes[id].Bytes
+	m1, ok1 := r.R1B[id]
+	m2, ok2 := r.R2B[id]
+	if !ok1 || !ok2 || m1.Ck == nil {
+		return tape
+	}
+	var rec []byte
+	rec = append(rec, m1.Ck[:]...)
+	rec = append(rec, m2.CommonContribution[:]...)
+	rec = append(rec, m2.CommonContributionWitness[:]...)
+	for _, peer := range r.Quorum {
+		if peer == id {
+			continue
+		}
+		m3, ok := r.R3U[id][peer]
+		if !ok {
+			return tape
+		}
+		rec = append(rec, m3.PairwiseContribution[:]...)
+		rec = append(rec, m3.PairwiseContributionWitness[:]...)
+	}
+	if !bytes.Equal(rec, tape) {
+		k.tapeLayoutDiffers = true
+	}
+	return rec
 }
 
 // ---------------------------------------------------------------- the oracle: Go's own hashes
@@ -502,44 +541,54 @@ func answer(q string) (string, error) {
 	return "", fmt.Errorf("bad query %q", q)
 }
 
-// solve runs the model driver over the lines, answering hash queries until none is left.
-func solve(driver string, n int, line func(i int) string, addTable func(i int, entries []string)) ([]string, error) {
-	out := make([]string, n)
-	todo := make([]int, n)
-	for i := range todo {
-		todo[i] = i
+// solve runs the model driver over the lines. The driver asks for every hash it needs
+// ("Q <query>" on its stdout) and is answered on its stdin; "R ..." ends a case.
+func solve(driver string, n int, line func(i int) string, _ func(i int, entries []string)) ([]string, error) {
+	cmd := exec.Command(driver)
+	stdin, err := cmd.StdinPipe()
+	if err != nil {
+		return nil, err
 	}
-	for pass := 0; len(todo) > 0; pass++ {
-		if pass > 12 {
-			return nil, fmt.Errorf("model still asks for hashes after %d passes", pass)
+	stdout, err := cmd.StdoutPipe()
+	if err != nil {
+		return nil, err
+	}
+	var errb bytes.Buffer
+	cmd.Stderr = &errb
+	if err := cmd.Start(); err != nil {
+		return nil, err
+	}
+	defer func() { stdin.Close(); cmd.Wait() }()
+	w := bufio.NewWriterSize(stdin, 1<<20)
+	r := bufio.NewReaderSize(stdout, 1<<20)
+	out := make([]string, n)
+	for i := 0; i < n; i++ {
+		w.WriteString(line(i))
+		w.WriteByte('\n')
+		if err := w.Flush(); err != nil {
+			return nil, fmt.Errorf("driver %s: %v: %s", driver, err, errb.String())
 		}
-		lines := make([]string, len(todo))
-		for j, i := range todo {
-			lines[j] = line(i)
-		}
-		res, err := vh.Driver(driver, lines)
-		if err != nil {
-			return nil, err
-		}
-		var next []int
-		for j, i := range todo {
-			if strings.HasPrefix(res[j], "Q ") {
-				f := strings.SplitN(res[j], " ", 3)
-				var entries []string
-				for _, q := range strings.Split(f[2], ";") {
-					a, err := answer(q)
-					if err != nil {
-						return nil, err
-					}
-					entries = append(entries, q+":"+a)
-				}
-				addTable(i, entries)
-				next = append(next, i)
-			} else {
-				out[i] = res[j]
+		for {
+			l, err := r.ReadString('\n')
+			if err != nil {
+				return nil, fmt.Errorf("driver %s: %v: %s", driver, err, errb.String())
 			}
+			l = strings.TrimRight(l, "\n")
+			if strings.HasPrefix(l, "Q ") {
+				a, err := answer(l[2:])
+				if err != nil {
+					return nil, err
+				}
+				w.WriteString(a)
+				w.WriteByte('\n')
+				if err := w.Flush(); err != nil {
+					return nil, fmt.Errorf("driver %s: %v: %s", driver, err, errb.String())
+				}
+				continue
+			}
+			out[i] = l
+			break
 		}
-		todo = next
 	}
 	return out, nil
 }
@@ -767,6 +816,17 @@ func (k *kase) predicate(reg *registry, gs []group) (string, string) {
 		if e := agreeAndSymmetric(r.Ctx); e != "" {
 			return "context-agreement", e
 		}
+		// deriving sub-contexts, reading Seeds() and sampling zero shares must not consume
+		// the context; a Clone() is an equal context
+		for _, id := range r.Quorum {
+			ids := strconv.FormatUint(uint64(id), 10)
+			if now := ctxFields(r.Ctx[id]); now != k.impl[ids+".ctx"] {
+				return "context-consumed", fmt.Sprintf("party %d: the context's observables changed after SubContext/Seeds were used", uint64(id))
+			}
+			if cl := ctxFields(r.Ctx[id].Clone()); cl != k.impl[ids+".ctx"] {
+				return "context-clone-differs", fmt.Sprintf("party %d: Clone() differs from the context", uint64(id))
+			}
+		}
 		if e := zeroSums(r.Ctx, gs); e != "" {
 			return "zero-share-sum", e
 		}
@@ -980,6 +1040,28 @@ func (c *ncCase) text() string {
 	return fmt.Sprintf("%d %s %s %s", uint64(c.holder), idsText(c.quorum, ","), vh.Hex(c.common), ps)
 }
 
+func parseNC(s string) *ncCase {
+	f := strings.Fields(s)
+	c := &ncCase{id: "replay", pairwise: map[sharing.ID][]byte{}}
+	if len(f) != 5 {
+		panic("bad newctx case " + s)
+	}
+	c.holder = parseIDs(f[1], ",")[0]
+	c.quorum = parseIDs(f[2], ",")
+	c.common = vh.UnHex(f[3])
+	if f[4] != "-" {
+		for _, e := range strings.Split(f[4], ",") {
+			kv := strings.SplitN(e, ":", 2)
+			b := vh.UnHex(kv[1])
+			if b == nil {
+				b = []byte{}
+			}
+			c.pairwise[parseIDs(kv[0], ",")[0]] = b
+		}
+	}
+	return c
+}
+
 func (c *ncCase) run() {
 	var ctx *rsess.Context
 	var err error
@@ -1155,6 +1237,7 @@ func main() {
 	reg := &registry{seeds: map[string]string{}}
 
 	var cases []*kase
+	var replayNC []*ncCase
 	if a.Replay != "" {
 		data, err := os.ReadFile(a.Replay)
 		if err != nil {
@@ -1166,6 +1249,9 @@ func main() {
 				c := strings.TrimSpace(strings.TrimPrefix(l, "case:"))
 				if strings.HasPrefix(c, "sess ") {
 					cases = append(cases, parseCase(c))
+				}
+				if strings.HasPrefix(c, "newctx ") {
+					replayNC = append(replayNC, parseNC(c))
 				}
 			}
 		}
@@ -1230,6 +1316,53 @@ func main() {
 		}
 	}
 
+	t0 := time.Now()
+	lap := func(what string) {
+		if os.Getenv("C10_TIMING") != "" {
+			fmt.Fprintf(os.Stderr, "%-12s %.1fs\n", what, time.Since(t0).Seconds())
+		}
+		t0 = time.Now()
+	}
+	// systematic sweep: one three-party session, every byte (quick: one bit per byte;
+	// thorough: every bit) of every field of every message type flipped, and every byte
+	// of every raw CBOR payload
+	if a.Replay == "" {
+		q := []sharing.ID{1 << 40, 3, 977}
+		type slot struct {
+			round  int
+			bcast  bool
+			fields int
+		}
+		n := 0
+		for _, sl := range []slot{{1, true, 2}, {2, true, 2}, {2, false, 1}, {3, false, 2}} {
+			for f := 0; f < sl.fields; f++ {
+				for bit := 0; bit < 256; bit++ {
+					if a.Tier != "thorough" && bit%8 != (bit/8)%8 {
+						continue
+					}
+					t := &tamper{Kind: "flip", Round: sl.round, Bcast: sl.bcast, From: q[n%3], Field: f, Bit: bit, Other: q[(n+2)%3]}
+					if !sl.bcast {
+						t.To = q[(n+1)%3]
+					}
+					cases = append(cases, &kase{id: fmt.Sprintf("w%d", n), seed: a.Seed*1000 + 900000, quorum: q, tam: t})
+					n++
+				}
+			}
+			step := 8 * 4
+			if a.Tier == "thorough" {
+				step = 1
+			}
+			for bit := 0; bit < 8*140; bit += step {
+				t := &tamper{Kind: "rawflip", Round: sl.round, Bcast: sl.bcast, From: q[n%3], Bit: bit + (bit/8)%8%step, Other: q[(n+2)%3]}
+				if !sl.bcast {
+					t.To = q[(n+1)%3]
+				}
+				cases = append(cases, &kase{id: fmt.Sprintf("w%d", n), seed: a.Seed*1000 + 900000, quorum: q, tam: t})
+				n++
+			}
+		}
+	}
+
 	// run the implementation
 	for _, k := range cases {
 		if p := vh.Safely(k.run); p != "" {
@@ -1245,6 +1378,7 @@ func main() {
 	}
 	cases = live
 
+	lap("impl")
 	// the model
 	lrng := vh.NewRng(a.Seed, prop, "line", 0)
 	outs, err := solve(a.Driver, len(cases),
@@ -1256,6 +1390,7 @@ func main() {
 		return
 	}
 
+	lap("model")
 	for i, k := range cases {
 		class := "honest"
 		if k.tam != nil {
@@ -1267,19 +1402,36 @@ func main() {
 			res.Distribution["verdict/"+k.res.Trace.Verdicts[id].Class]++
 		}
 		model := parseKV(outs[i])
+		if k.tapeLayoutDiffers {
+			res.Distribution["tape-layout-differs-from-model"]++
+		}
 		if os.Getenv("C10_DEBUG") == k.id {
 			fmt.Fprintf(os.Stderr, "CASE %s\nMODEL %s\nIMPL %v\n", k.text(), outs[i], k.impl)
 		}
 		key, detail := diffMaps(model, k.impl)
 		pk, pd := k.predicate(reg, gs)
 		if key != "" {
-			res.Mismatch(vh.Mismatch{ID: k.id, Kind: "corr", Key: "session-" + keyClass(key), Detail: detail + propNote(pk, pd), Case: k.text(), PropFail: pk != "",
+			// shrink: keep only the sub-quorum path the disagreement is about
+			ct := k.text()
+			if pk == "" {
+				sk := *k
+				sk.subs = nil
+				if f := strings.Split(key, "."); len(f) == 3 && f[1] == "sub" {
+					if n, err := strconv.Atoi(f[2]); err == nil && n < len(k.subs) {
+						sk.subs = [][][]sharing.ID{k.subs[n]}
+						detail = strings.Replace(detail, key, f[0]+".sub.0", 1)
+					}
+				}
+				ct = sk.text()
+			}
+			res.Mismatch(vh.Mismatch{ID: k.id, Kind: "corr", Key: "session-" + keyClass(key), Detail: detail + propNote(pk, pd), Case: ct, PropFail: pk != "",
 				What: "correspondence Session.party_run / new_context / sub_context vs pkg/mpc/session (theorems C10_sid_agreement, C10_pair_symmetry, C10_pair_distinct, C10_subctx_agree, C10_setup_opening_blame rest on it)"})
 		} else if pk != "" {
 			res.Mismatch(vh.Mismatch{ID: k.id, Kind: "prop", Key: pk, Detail: pd, Case: k.text(), PropFail: true, What: "property predicate on the implementation"})
 		}
 	}
 
+	lap("predicates")
 	// zero shares against the model, over Z_q of k256 (honest cases, quorum and first sub-quorums)
 	var zl, zi, zt []string
 	for _, k := range cases {
@@ -1330,13 +1482,21 @@ func main() {
 		}
 	}
 
+	lap("przs")
 	// NewContext called directly
-	if a.Replay == "" {
+	{
 		nrng := vh.NewRng(a.Seed, prop, "newctx", 0)
 		var ncs []*ncCase
 		nn := 60
 		if a.Tier == "thorough" {
 			nn = 600
+		}
+		if a.Replay != "" {
+			nn = 0
+			for _, c := range replayNC {
+				c.run()
+				ncs = append(ncs, c)
+			}
 		}
 		for i := 0; i < nn; i++ {
 			size := 1 + nrng.Intn(5)
@@ -1392,9 +1552,9 @@ func main() {
 		}
 	}
 
+	lap("newctx")
 	res.Note("hash oracle: blake2b-256 keyed, SHA3-512 and cSHAKE256 from Go's x/crypto and crypto/sha3, applied to the model's byte strings")
 	res.Write(a.Out)
-	_ = bytes.Equal
 	_ = hashcom.KeySize
 }
 
